@@ -1,7 +1,7 @@
 (* CaseLib.v — how a correspondence case (one converter: declarations, settings, observed
    generation outcome, observed runs of the compiled output) is compared with the model. *)
 From Coq Require Import List NArith ZArith Bool.
-From GV Require Import Base Ty Conf Extracted Val Plan Eval Gen.
+From GV Require Import Base Ty Conf Extracted Comment Settings Val Plan Eval Gen.
 Import ListNotations.
 Open Scope N_scope.
 
@@ -9,8 +9,11 @@ Record run_obs := { r_method : N; r_src : val; r_n0 : N;
                     r_out : option val;                 (* None = the call panicked *)
                     r_shared : list (list pstep) }.     (* result positions whose address belongs to the source *)
 
-Record conv_case := { k_id : N; k_env : env; k_common : common; k_out : N;
-                      k_methods : list decl_method;
+(* a declared method as written: signature and its goverter: lines (text after the prefix) *)
+Record decl_src := { ds_name : rstr; ds_src : ty; ds_tgt : ty; ds_update : bool; ds_lines : list rstr }.
+
+Record conv_case := { k_id : N; k_env : env; k_global : list rstr; k_lines : list rstr; k_out : N;
+                      k_methods : list decl_src;
                       k_outcome : N;                     (* 0 = generated, 1 = generator panicked, else diagnostic class *)
                       k_runs : list run_obs }.
 
@@ -56,8 +59,29 @@ Definition check_run (e : env) (tab : table) (r : run_obs) : list N :=
   | _ => [5]
   end.
 
+(* settings in effect, computed by the settings model from the raw lines *)
+Fixpoint decl_methods (cc : smap) (ms : list decl_src) : res (list decl_method) :=
+  match ms with
+  | [] => Ok []
+  | m :: r => do st <- method_state cc (ds_lines m);
+              do rest <- decl_methods cc r;
+              Ok ({| dm_name := ds_name m; dm_src := ds_src m; dm_tgt := ds_tgt m; dm_update := ds_update m;
+                     dm_conf := mconf_of st (ds_update m) |} :: rest)
+  end.
+
+Definition case_generate (c : conv_case) : gres table :=
+  match converter_smap (k_global c) (k_lines c) with
+  | Ok cc => match decl_methods cc (k_methods c) with
+             | Ok ms => generate (k_env c) (common_of cc) (k_out c) ms
+             | Diag cl => GDiag cl
+             | Panic s => GPanic s
+             end
+  | Diag cl => GDiag cl
+  | Panic s => GPanic s
+  end.
+
 Definition check_case (c : conv_case) : list N :=
-  match generate (k_env c) (k_common c) (k_out c) (k_methods c) with
+  match case_generate c with
   | GOk tab => if k_outcome c =? 0 then flat_map (check_run (k_env c) tab) (k_runs c) else [1]
   | GDiag cl => if cl =? k_outcome c then [] else [1]
   | GPanic _ => if k_outcome c =? 1 then [] else [1]
